@@ -296,6 +296,60 @@ Section Skeleton.
     end.
 End Skeleton.
 
+(* ------------------------------------------------------------------ loop skeletons of the other drivers with normalize_factors *)
+(* non_negative_tucker / non_negative_tucker_hals (scale carried by the core, tucker_normalize), as the code is:
+     state <- initialize_tucker                 (never normalised)
+     for iteration in range(n_iter_max):
+         sweep
+         if [tol and] iteration > 1 and <converged>: break          (BEFORE the normalisation)
+         [normalise if requested]
+     return state
+   parafac2:
+     state <- initialize_decomposition          (never normalised)
+     for iteration in range(n_iter_max):
+         sweep ; [normalise if requested]
+         if tol and iteration >= 1 and <converged>: break
+     return state
+   One boolean decision (the convergence test fired) per executed sweep. *)
+Section Skeleton2.
+  Variable St : Type.
+  Variables (sweep normalise : St -> St).
+  Fixpoint nt_loop (nf tol_set : bool) (it fuel : nat) (decisions : list bool) (s : St) : St :=
+    match fuel with
+    | O => s
+    | S fuel' =>
+        let s1 := sweep s in
+        if tol_set && (2 <=? it) && hd false decisions then s1
+        else nt_loop nf tol_set (S it) fuel' (tl decisions) (norm_if St normalise nf s1)
+    end.
+  Definition nt_run (nf tol_set : bool) (n_iter_max : nat) (decisions : list bool) (s0 : St) : St :=
+    nt_loop nf tol_set 0 n_iter_max decisions s0.
+  Fixpoint p2_loop (nf tol_set : bool) (it fuel : nat) (decisions : list bool) (s : St) : St :=
+    match fuel with
+    | O => s
+    | S fuel' =>
+        let s1 := norm_if St normalise nf (sweep s) in
+        if tol_set && (1 <=? it) && hd false decisions then s1
+        else p2_loop nf tol_set (S it) fuel' (tl decisions) s1
+    end.
+  Definition p2_run (nf tol_set : bool) (n_iter_max : nat) (decisions : list bool) (s0 : St) : St :=
+    p2_loop nf tol_set 0 n_iter_max decisions s0.
+  (* candidate repair (build/fix_candidates/C08_tucker_parafac2_normalize_every_exit.diff): the initialisation is
+     normalised when requested, and the convergence exit of the Tucker drivers normalises before the break *)
+  Fixpoint nt_loop_fix (nf tol_set : bool) (it fuel : nat) (decisions : list bool) (s : St) : St :=
+    match fuel with
+    | O => s
+    | S fuel' =>
+        let s1 := norm_if St normalise nf (sweep s) in
+        if tol_set && (2 <=? it) && hd false decisions then s1
+        else nt_loop_fix nf tol_set (S it) fuel' (tl decisions) s1
+    end.
+  Definition nt_run_fix (nf tol_set : bool) (n_iter_max : nat) (decisions : list bool) (s0 : St) : St :=
+    nt_loop_fix nf tol_set 0 n_iter_max decisions (norm_if St normalise nf s0).
+  Definition p2_run_fix (nf tol_set : bool) (n_iter_max : nat) (decisions : list bool) (s0 : St) : St :=
+    p2_loop nf tol_set 0 n_iter_max decisions (norm_if St normalise nf s0).
+End Skeleton2.
+
 (* ------------------------------------------------------------------ the skeleton run on event traces *)
 (* EvU m: the factor of mode m is replaced (one unfolding_dot_khatri_rao call per update in all three drivers);
    EvN: cp_normalize is applied to the current (weights, factors). *)
@@ -324,3 +378,11 @@ Definition trace_run (d : driver) (nf tol_set : bool) (ik : init_kind) (n_modes 
 Definition updates (t : list ev) : list nat := flat_map (fun e => match e with EvU m => [m] | EvN => [] end) t.
 Definition ends_normalised (t : list ev) : bool := match rev t with EvN :: _ => true | _ => false end.
 Definition any_normalise (t : list ev) : bool := existsb (fun e => match e with EvN => true | _ => false end) t.
+
+(* the other drivers on event traces: EvU 0 stands for one whole sweep *)
+Inductive driver2 := NnTucker | NnTuckerHals | Parafac2.
+Definition trace_run2 (d : driver2) (nf tol_set : bool) (n_iter_max : nat) (decisions : list bool) : list ev :=
+  match d with
+  | Parafac2 => p2_run (list ev) (fun s => s ++ [EvU 0]) (fun s => s ++ [EvN]) nf tol_set n_iter_max decisions []
+  | _ => nt_run (list ev) (fun s => s ++ [EvU 0]) (fun s => s ++ [EvN]) nf tol_set n_iter_max decisions []
+  end.
